@@ -5,7 +5,7 @@ from purefns import pure_fns
 _EPOCH = "Z * Z * list (Z * Z * Z * Z)"
 PROP = dict(
     props="Props/C11.v",
-    tie={"modules": ["TieC11", "TiePure", "TiePoints"],
+    tie={"modules": ["TieC11", "TiePure", "Points", "TiePoints"],
          "fns": dict({
              "w_stake": ("w_stake_run", "Z.eqb", "(Z * Z * Z * Z * Z) * Z"),
              "w_liqstake": ("w_liqstake_run", "Z.eqb", "(Z * Z * Z * Z * Z) * Z"),
@@ -33,12 +33,21 @@ PROP = dict(
          "missing pillar infos, details without reward), stake/sentinel entries starting/ending around the epoch borders and the 90 % uptime threshold, "
          "cursor states with 0..45 epochs due and `now` at the due second -1/0/+1; "
          "node: real node, epoch duration from {5,10,15,30,60} min, random pillar registrations/revocations, delegations, give-percentage updates, stakes, "
-         "sentinels, skipped momentum slots, Update and CollectReward at random times, and a follower node fed by InsertChain; a case is distinct by (function, input)",
+         "sentinels, skipped momentum slots, Update and CollectReward at random times, and a follower node fed by InsertChain; "
+         "batches: Update calls of every reward contract (pillar, stake, sentinel, liquidity before and after the spork) that issue 1,2,3,7,10+ epochs at once with the batch "
+         "placed -2..+2 epochs around every first epoch of a reward tick (30, 60, ..., one tick beyond the longer emission table), synthetic storage and, for one boundary per run, a real node "
+         "after a network stall; twin nodes: producer and a follower in lock-step on chains with gaps (whole empty periods at the end / beginning / middle of an epoch, empty epochs), one of "
+         "the two asked for the statistics of the previous, running and next epoch and period at every momentum, the other never asked; a node asked at every momentum replayed on the points model; "
+         "a case is distinct by (function, input)",
     explanation="Theorems: the translated emission functions never panic and the per-contract shares of an epoch add up to at most its emission; "
                 "for well-formed epoch statistics everything credited to pillars and backers for an epoch is at most (delegation+producing reward per momentum) x expected momentums "
                 "(74 % of the epoch's ZNN emission for a 24 h epoch); stake / sentinel credits are at most their share; any pro-rata split hands out at most the total; "
                 "an Update rewards exactly the epochs LastEpoch+1..LastEpoch+k in order, each ended >= RewardTimeLimit ago, and over any history of updates no epoch is rewarded twice; "
+                "every epoch issued by a liquidity Update - several per call, possibly on both sides of a reward tick - is minted the emission of its own epoch (C11_liquidity_issues_the_emission_of_its_epoch); "
                 "CollectReward mints exactly the deposit, deletes it, a second collect fails; minted + deposited = credited over any history. "
+                "Statistics: nodes that reached the same chain by any histories of insertions, rollbacks, restarts and queries answer alike for every finished epoch (C11_statistics_identical_on_all_nodes); "
+                "a question about a running epoch stores nothing (C11_running_epoch_query_stores_nothing) and the IsFinished guard in front of the store is needed: without it a point computed in front of "
+                "empty periods is served after the epoch has finished (C11_epoch_store_guard_is_load_bearing, witness history). "
                 "Modelled: computePillarRewardForEpoch, computeDetailedPillarReward, computeStakeRewardsForEpoch, computeSentinelRewardsForEpoch, the update loops, "
                 "CanPerformEpochUpdate/checkAndPerformUpdateEpoch, addReward, CollectRewardMethod.ReceiveBlock; emission tables, percentages and weight functions are translated from source. "
                 "Fixed defect (a732e8e): updateLiquidityRewards skipped an epoch when more than MaxEpochsPerUpdate/2 were due; the fixed loop is modelled (C11_liquidity_cursor), the old one kept as C11_liquidity_cursor_refuted.",
@@ -54,7 +63,7 @@ META = dict(
          "Sampling scenarios cannot bound the sum over all participants for all epochs, nor show that no update timing rewards an epoch twice.",
     design_ref="DESIGN.md section 5, C11",
     note="Trusted: Coq kernel; go2coq/constdump; the harness. Epoch statistics (consensus/points.go) enter as observed inputs with a well-formedness hypothesis that the harness checks on the real node; "
-         "node-to-node agreement of the epoch statistics is C11_statistics_identical_on_all_nodes over the model of consensus/points.go (Points.v, tied to the real node by C06's suite points; hypotheses: hash collision freedom, election as a function of the chain); agreement of the credited amounts themselves is additionally checked by a follower node fed through ChainBridge.InsertChain (oracle). computeLiquidityStakeRewardsForEpoch is modelled (C11_liquidity_stake_exact); that it never returns ErrInvalidRewards for percentages <= 100 % is not proved. "
+         "node-to-node agreement of the epoch statistics is C11_statistics_identical_on_all_nodes over the model of consensus/points.go (Points.v, tied to the real node by C06's suite points; hypotheses: hash collision freedom, election as a function of the chain); agreement of the credited amounts themselves is additionally checked by a follower node fed through ChainBridge.InsertChain (oracle), in one scenario in lock-step with one of the two nodes asked for the running epoch's statistics at every momentum (whole contract storage compared after every Update; statistics of every finished epoch compared with a consensus module with an empty DB). computeLiquidityStakeRewardsForEpoch is modelled (C11_liquidity_stake_exact); that it never returns ErrInvalidRewards for percentages <= 100 % is not proved. "
          "Fixed in /repo a732e8e: updateLiquidityRewards advanced the cursor past an unrewarded epoch when more than 10 epochs were due.",
     technique="Coq proof (induction over lists/histories, lia/nia with explicit int64/uint64 wrap) over translated source + differential correspondence check on real contract code",
 )
